@@ -144,6 +144,17 @@ func check(c Case) (kind, what string) {
 
 var worst = map[string]float64{}
 
+// steps moves v by n float32 steps (n may be negative)
+func steps(v float32, n int) float32 {
+	for ; n > 0; n-- {
+		v = math.Nextafter32(v, float32(math.Inf(1)))
+	}
+	for ; n < 0; n++ {
+		v = math.Nextafter32(v, float32(math.Inf(-1)))
+	}
+	return v
+}
+
 func nontrivial(v [3]float32) bool {
 	out := false
 	for _, x := range v {
@@ -185,7 +196,7 @@ func TestC03(t *testing.T) {
 		}
 		return
 	}
-	ev.Rule("per space: declared chromaticities vs published values; 9+9 coefficients recovered by probing basis vectors; then the 8-bit-spaced lattice (64^3 quick / 256^3 thorough) of RGB triples and of XYZ triples, plus rapid float32 triples in [-1,2]^3 (a quarter within 1e-7..3e-2 of a landmark of the RGB cube - 0, 1, 1/2, a common grey - by a different amount per component; a quarter with components of independent magnitude 1e-44..1e30 and sign), through ToXYZ, ColorFromXYZ and both round trips. an eighth of the rapid cases directly follow a request outside the domain (non-finite or degenerate arguments) whose answer is ignored. non-trivial = distinct triple with a component outside [0,1] or all three components different")
+	ev.Rule("per space: declared chromaticities vs published values; 9+9 coefficients recovered by probing basis vectors; then the 8-bit-spaced lattice (64^3 quick / 256^3 thorough) of RGB triples and of XYZ triples, plus component values that put each matrix coefficient's product within 8 float32 steps of a power of two, 4 million (thorough 25 million per shard) pseudo-random triples in [0,1)^3, and rapid float32 triples in [-1,2]^3 (a quarter within 1e-7..3e-2 of a landmark of the RGB cube - 0, 1, 1/2, a common grey - by a different amount per component; a quarter with components of independent magnitude 1e-44..1e30 and sign), through ToXYZ, ColorFromXYZ and both round trips. an eighth of the rapid cases directly follow a request outside the domain (non-finite or degenerate arguments) whose answer is ignored. non-trivial = distinct triple with a component outside [0,1] or all three components different")
 	ev.Assume("published chromaticities transcribed in internal/ref; equality with published values at the precision of publication (5e-5)")
 	ev.Set("tolerances", map[string]float64{"coefficient": 1e-6, "transform": 1.5e-6, "roundtrip": 2e-6, "published": 5e-5})
 
@@ -297,6 +308,66 @@ func TestC03(t *testing.T) {
 		ev.Class("named-constants", nn)
 	}
 	ev.Class("special-value-triples", int64(4*len(sv)*len(sv)*len(sv)*4))
+	// products at the rounding boundary of a power of two: for every coefficient of both matrices of every space, the
+	// component value that makes coefficient*component land within a few float32 steps of 2^k (k = -10..3), alone in
+	// its channel - where a product rounds up into the next binade (hand-written multiplies, fused or split
+	// arithmetic and table interpolation differ exactly there)
+	{
+		var nb int64
+		for i := range sp.Spaces {
+			a := &sp.Spaces[i]
+			m := refMats(a)
+			for di, mm := range []ref.M3{m.to, m.from} {
+				dir := []string{"toXYZ", "fromXYZ"}[di]
+				for r := 0; r < 3; r++ {
+					for c := 0; c < 3; c++ {
+						coef := mm[r][c]
+						if coef == 0 {
+							continue
+						}
+						for k := -10; k <= 3; k++ {
+							centre := float32(math.Ldexp(1, k) / math.Abs(coef))
+							for off := -8; off <= 8; off++ {
+								var v [3]float32
+								v[c] = steps(centre, off)
+								cs := Case{Space: a.Name, Dir: dir, V: v}
+								ev.Eval(1)
+								nb++
+								if kk, w := check(cs); kk != "" {
+									ev.Violation("xyz", a.Name+"/"+kk, "product next to a power of two: "+w, cs)
+									off, k, c, r = 9, 4, 3, 3
+								}
+							}
+						}
+					}
+				}
+			}
+		}
+		ev.Class("power-of-two-products", nb)
+	}
+	// volume: plain pseudo-random triples in [0,1)^3, all spaces and directions, checked like every other case (rare
+	// arithmetic corners that no structure predicts: 4 million quick, 100 million thorough)
+	{
+		x := ev.Seed()*0x9E3779B97F4A7C15 + 0xC03
+		next := func() float32 {
+			x ^= x << 13
+			x ^= x >> 7
+			x ^= x << 17
+			return float32(x>>40) / (1 << 24)
+		}
+		n := ev.Pick(4000000, 25000000)
+		dirs := []string{"toXYZ", "fromXYZ", "rt-rgb"}
+		for i := 0; i < n; i++ {
+			cs := Case{Space: sp.Spaces[i&3].Name, Dir: dirs[(i>>2)%3], V: [3]float32{next(), next(), next()}}
+			if kk, w := check(cs); kk != "" {
+				ev.Violation("xyz", cs.Space+"/"+kk, w, cs)
+				break
+			}
+		}
+		ev.Eval(int64(n))
+		ev.NTAdd(int64(n))
+		ev.Class("volume-random-triples", int64(n))
+	}
 	// rapid triples in [-1,2]^3
 	ev.RapidChecks(ev.Pick(10000, 1000000))
 	ev.RapidSeed(3)
